@@ -67,6 +67,31 @@ func (g *gen) pinnedVariadic() {
 		g.runCall(in1, ctys1, true, []string{e.vals[0].js}, []string{e.vals[0].coq}, "variadic")
 		g.runCall(in1, ctys1, true, nil, nil, "variadic")
 	}
+	// arrays with holes for slice parameters of several element types: a hole is the zero value at ITS index
+	holeTypes := []*gty{it, {rt: reflect.TypeOf(""), coq: "TStr", kind: "str"}, {rt: reflect.TypeOf(true), coq: "TBool", kind: "bool"},
+		{rt: anyType, coq: "TAny", kind: "any"}, {rt: kinds[kF64].rt, coq: "(TNum KF64)", kind: "num", nk: kF64}}
+	for _, ht := range holeTypes {
+		for _, shape := range [][]bool{{true, false, true}, {false, true}, {true, false, false, true}, {false, false}, {true, true, false}} {
+			var js, cq []string
+			for i, present := range shape {
+				if !present {
+					js, cq = append(js, ""), append(cq, "None")
+					continue
+				}
+				v := num(i + 1)
+				if ht.kind == "str" {
+					v = jsString(fmt.Sprint("s", i))
+				}
+				js, cq = append(js, v.js), append(cq, "(Some "+v.coq+")")
+			}
+			lit := "[" + strings.Join(js, ",") + "]"
+			if !shape[len(shape)-1] {
+				lit = "[" + strings.Join(js, ",") + ",]" // a trailing hole needs its own comma
+			}
+			g.runCall([]reflect.Type{reflect.SliceOf(ht.rt)}, []string{"(TSlice " + ht.coq + ")"}, false, []string{lit}, []string{"(JArr " + Clist(cq) + ")"}, "variadic")
+			g.runCall([]reflect.Type{reflect.SliceOf(ht.rt)}, []string{"(TSlice " + ht.coq + ")"}, true, []string{lit}, []string{"(JArr " + Clist(cq) + ")"}, "variadic")
+		}
+	}
 	// a function where a plain slice parameter is expected
 	g.runCall([]reflect.Type{reflect.SliceOf(it.rt)}, []string{"(TSlice (TNum KI))"}, false, []string{jsFun(2).js}, []string{jsFun(2).coq}, "variadic")
 }
